@@ -121,6 +121,20 @@ impl<K: SimKey, F: LruFlavor> LruSubj<K, F> {
         let cap = h.sizes[0];
         if h.ctor >= 1 {
             if let Some(c) = lib!(F::convert::<K>(h.ctor, cap)) {
+                // C17: the same input converted twice (two hash-map instances, i.e. two
+                // RandomState keys) must give the same recency order
+                if let Some(c2) = lib!(F::convert::<K>(h.ctor, cap)) {
+                    let o1: Vec<u32> = c.keys().map(|k| k.raw().0).collect();
+                    let o2: Vec<u32> = c2.keys().map(|k| k.raw().0).collect();
+                    if o1 != o2 {
+                        crate::world::report(
+                            "C17",
+                            "conversion_order_unstable",
+                            format!("two conversions of the same {} pairs have recency orders {:?} and {:?}", cap, o1, o2),
+                        );
+                    }
+                    lib!(drop(c2));
+                }
                 return Ok(LruSubj {
                     c: Some(c),
                     cb: None,
@@ -191,7 +205,7 @@ impl<K: SimKey, F: LruFlavor> Subject for LruSubj<K, F> {
             Len => Val::Num(lib!(c.len()) as i64),
             Cap => Val::Num(lib!(c.cap()) as i64),
             IsEmpty => Val::Bool(lib!(c.is_empty())),
-            Resize => Val::Num(lib!(c.resize(op.n as usize)) as i64),
+            Resize => Val::Num(lib!(c.resize(crate::ops::resize_arg(op.n))) as i64),
             GetLru => opt_kv(lib!(c.get_lru())),
             GetLruMut => opt_kv_mut(lib!(c.get_lru_mut()), op.w),
             GetMru => opt_kv(lib!(c.get_mru())),
@@ -300,8 +314,11 @@ impl<K: SimKey, F: LruFlavor> Subject for LruSubj<K, F> {
 
     fn fork(&self) -> Option<Box<dyn Subject>> {
         let c = self.c.as_ref()?;
+        let before = crate::world::cb_log_count();
         let d = lib!(c.clone());
-        let cb = c_cb_id::<K, F>(&d);
+        // the clone of the callback registers a new log; if none appeared the clone has no
+        // (or a shared) callback and nothing will be attributed to it
+        let cb = if crate::world::cb_log_count() > before { c_cb_id::<K, F>(&d) } else { None };
         Some(Box::new(LruSubj::<K, F> {
             c: Some(d),
             cb,
